@@ -1,27 +1,44 @@
-(* C11: cue tree round trip.  For every tree of text and b / i / u / c.classes / lang / v elements, nested to
-   any depth, parsing its printed WebVTT cue text (tokenizer, then _TextCueParser) yields exactly one span
-   per element carrying that element's style, around exactly the spans of its content, with one span per
-   text line and a br between lines.  By induction on the tree, on top of the tokenizer round trip. *)
+(* C11: cue tree round trip.  For every tree of text (spelled with literal characters and character references),
+   inline timestamps and b / i / u / c.classes / lang / v elements (annotations with any characters), nested to any
+   depth, parsing its printed WebVTT cue text (tokenizer, then _TextCueParser) yields exactly one span per element
+   carrying that element's style, around exactly the spans of its content, with one span per text line and a br
+   between lines, every text span carrying the begin (relative to the cue) of the last timestamp that precedes it in
+   the cue text, whatever the nesting (tree_roundtrip).  With ruby (tree_ruby_roundtrip): the same for cue texts that
+   also hold ruby elements outside the recorded finding ruby-structure - at the top level of the cue, every base one
+   line of text, no line break directly inside rt.  By induction on the tree, on top of the tokenizer round trip. *)
 From Coq Require Import QArith.
 From TT Require Import Base.Prelude Gen.VttTables Model.VttTokenizer Model.VttReader Spec.VttSpec.
-From TT Require Import Proofs.C11.Tokenizer.
+From TT Require Import Proofs.C11.Tokenizer Proofs.C11.Time Proofs.C11.Lines.
 Local Open Scope Z_scope.
 
-Inductive snode := SText (t : text) | STag (k : ctag) (cs : list snode).
+Inductive snode := SText (ps : list piece) | STs (t : tstamp) | STag (k : ctag) (cs : list snode).
 
 Lemma snode_ind' (P : snode -> Prop) :
-  (forall t, P (SText t)) -> (forall k cs, Forall P cs -> P (STag k cs)) -> forall n, P n.
+  (forall t, P (SText t)) -> (forall t, P (STs t)) -> (forall k cs, Forall P cs -> P (STag k cs)) -> forall n, P n.
 Proof.
-  intros Ht Hg. fix IH 1. intros [t|k cs]; [apply Ht|]. apply Hg.
+  intros Ht Hs Hg. fix IH 1. intros [t|t|k cs]; [apply Ht|apply Hs|]. apply Hg.
   induction cs as [|c cs IHcs]; constructor; [apply IH|exact IHcs].
 Qed.
 
-Fixpoint node_of (n : snode) : cnode :=
-  match n with SText t => CText t | STag k cs => CTag k (map node_of cs) end.
+(* the grammar derivation (Spec.VttSpec.cnode) of a tree *)
+Definition piece_node (p : piece) : cnode := match p with PLit t => CText t | PRef r => CRef r end.
+Fixpoint nodes_of (n : snode) : list cnode :=
+  match n with
+  | SText ps => map piece_node ps
+  | STs t => [CTs t]
+  | STag k cs => [CTag k (flat_map nodes_of cs)]
+  end.
 
 (* ---- well-formed trees: what the WebVTT syntax can express uniquely *)
-Definition annot_ok (a : text) : Prop :=
-  Forall (fun c => c <> 38 /\ c <> 60 /\ c <> 62) a /\ norm_annot a = a.
+(* a reference means what S says it means (the six names WebVTT lists; numeric references of scalar values) *)
+Definition ref_good (r : cref) : Prop := ref_ok r /\ unescape (print_cref r) = cref_value r.
+Definition piece_good (p : piece) : Prop := match p with PLit t => t <> [] | PRef r => ref_good r end.
+(* the characters a spelled text shows, by S's reading of the references *)
+Definition piece_svalue (p : piece) : text := match p with PLit t => t | PRef r => cref_value r end.
+Definition pieces_svalue (ps : list piece) : text := flat_map piece_svalue ps.
+Definition text_ok (ps : list piece) : Prop := ps <> [] /\ Forall piece_good ps /\ pieces_svalue ps <> [].
+
+Definition annot_ok (a : text) : Prop := norm_annot a = a.
 Definition tag_ok (k : ctag) : Prop :=
   match k with TgC cls => Forall class_ok cls | TgLang l => annot_ok l | TgV n => annot_ok n | _ => True end.
 Definition is_text (n : snode) : bool := match n with SText _ => true | _ => false end.
@@ -31,9 +48,18 @@ Fixpoint no_adj (l : list snode) : Prop :=
   | [] => True
   end.
 Inductive wf_node : snode -> Prop :=
-| wf_text t : t <> [] -> wf_node (SText t)
+| wf_text ps : text_ok ps -> wf_node (SText ps)
+| wf_tsn t : wf_ts t -> wf_node (STs t)
 | wf_tag k cs : tag_ok k -> Forall wf_node cs -> no_adj cs -> wf_node (STag k cs).
 Definition wf_nodes (ns : list snode) : Prop := Forall wf_node ns /\ no_adj ns.
+
+Lemma pieces_value_svalue ps : Forall piece_good ps -> pieces_value ps = pieces_svalue ps.
+Proof.
+  induction 1 as [|p ps Hp _ IH]; [reflexivity|]. unfold pieces_value, pieces_svalue in *. cbn [flat_map]. rewrite IH.
+  destruct p as [t|r]; [reflexivity|]. destruct Hp as [_ E]. cbn [piece_value piece_svalue]. rewrite E. reflexivity.
+Qed.
+Lemma piece_good_ok p : piece_good p -> piece_ok p.
+Proof. destruct p; cbn; [auto|intros [H _]; exact H]. Qed.
 
 (* ---- the expected tree *)
 Definition bg_attrs : attrs := mkAttrs None (Some default_bg_color) None false false false None.
@@ -47,19 +73,44 @@ Definition expected_attrs (k : ctag) (a : attrs) : attrs :=
   | TgLang l => mkAttrs (a_begin a) (a_bg a) (a_color a) (a_bold a) (a_italic a) (a_under a) (Some l)
   | TgV _ => a
   end.
-Fixpoint lines_elems (top first : bool) (ls : list text) : list elem :=
+(* the relative begin after a timestamp tag: a timestamp before the cue's begin is ignored *)
+Definition ts_begin (pb : Q) (now : option Q) (t : tstamp) : option Q :=
+  let ts := Qmake (ts_ms t) 1000 in if Qle_bool pb ts then Some (ts - pb)%Q else now.
+Fixpoint lines_elems (top : bool) (now : option Q) (first : bool) (ls : list text) : list elem :=
   match ls with
   | [] => []
-  | l :: ls' => (if first then [] else [EBr]) ++ ENode KSpan (base_attrs top) [EText l] :: lines_elems top false ls'
+  | l :: ls' => (if first then [] else [EBr]) ++ ENode KSpan (with_begin now (base_attrs top)) [EText l] :: lines_elems top now false ls'
   end.
-Fixpoint span_of (top : bool) (n : snode) : list elem :=
+(* `now` (the relative begin set by the last timestamp) is threaded left to right through the whole tree *)
+Fixpoint span_of (pb : Q) (top : bool) (now : option Q) (n : snode) {struct n} : list elem * option Q :=
   match n with
-  | SText t => lines_elems top true (split_on 10 t)
-  | STag k cs => [ENode KSpan (expected_attrs k (base_attrs top)) (flat_map (span_of false) cs)]
+  | SText ps => (lines_elems top now true (split_on 10 (pieces_svalue ps)), now)
+  | STs t => ([], ts_begin pb now t)
+  | STag k cs =>
+    let fix go (now : option Q) (cs : list snode) {struct cs} : list elem * option Q :=
+      match cs with
+      | [] => ([], now)
+      | c :: cs' => let '(e1, n1) := span_of pb false now c in let '(e2, n2) := go n1 cs' in (e1 ++ e2, n2)
+      end in
+    let '(es, now') := go now cs in ([ENode KSpan (expected_attrs k (base_attrs top)) es], now')
   end.
-Definition spans_of (top : bool) (ns : list snode) : list elem := flat_map (span_of top) ns.
+Fixpoint spans_of (pb : Q) (top : bool) (now : option Q) (ns : list snode) : list elem * option Q :=
+  match ns with
+  | [] => ([], now)
+  | n :: ns' => let '(e1, n1) := span_of pb top now n in let '(e2, n2) := spans_of pb top n1 ns' in (e1 ++ e2, n2)
+  end.
+Lemma span_of_tag pb top now k cs :
+  span_of pb top now (STag k cs) =
+  let '(es, now') := spans_of pb false now cs in ([ENode KSpan (expected_attrs k (base_attrs top)) es], now').
+Proof.
+  cbn [span_of].
+  match goal with |- (let '(es, now') := ?g now cs in _) = _ => assert (E : forall cs now, g now cs = spans_of pb false now cs) end.
+  { induction cs0 as [|c cs0 IH]; intros now0; [reflexivity|]. cbn [spans_of]. cbn -[span_of].
+    destruct (span_of pb false now0 c) as [e1 n1]. rewrite IH. reflexivity. }
+  rewrite E. reflexivity.
+Qed.
 
-(* ---- tokens of a tree *)
+(* ---- items (printing side) and tokens (parsing side) of a tree *)
 Definition start_token (k : ctag) : token :=
   match k with
   | TgB => TStart [98] None None
@@ -70,61 +121,64 @@ Definition start_token (k : ctag) : token :=
   | TgLang l => TStart [108;97;110;103] (Some []) (Some l)
   | TgV n => TStart [118] (Some []) (Some n)
   end.
-Fixpoint tokens_of (n : snode) : list token :=
+Fixpoint items_of (n : snode) : list item :=
   match n with
-  | SText t => [TString t]
-  | STag k cs => start_token k :: flat_map tokens_of cs ++ [TEnd (tag_name k)]
+  | SText ps => [IStr ps]
+  | STs t => [ITok (TTs (print_ts t))]
+  | STag k cs => ITok (start_token k) :: flat_map items_of cs ++ [ITok (TEnd (tag_name k))]
   end.
-
-Lemma escape_id a : Forall (fun c => c <> 38 /\ c <> 60 /\ c <> 62) a -> escape a = a.
-Proof.
-  induction 1 as [|c a (H1 & H2 & H3) _ IH]; [reflexivity|].
-  change (escape (c :: a)) with (escape_char c ++ escape a). rewrite IH. unfold escape_char.
-  replace (c =? 38) with false by lia. replace (c =? 60) with false by lia. replace (c =? 62) with false by lia.
-  reflexivity.
-Qed.
+Definition tokens_of (n : snode) : list token := map item_token (items_of n).
+Definition tokens_of_list (ns : list snode) : list token := map item_token (flat_map items_of ns).
+Lemma tokens_of_list_cons n ns : tokens_of_list (n :: ns) = tokens_of n ++ tokens_of_list ns.
+Proof. unfold tokens_of_list, tokens_of. cbn [flat_map]. apply map_app. Qed.
+Lemma tokens_of_tag k cs : tokens_of (STag k cs) = start_token k :: tokens_of_list cs ++ [TEnd (tag_name k)].
+Proof. unfold tokens_of, tokens_of_list. cbn [items_of map item_token]. rewrite map_app. reflexivity. Qed.
 
 Lemma print_start k : tag_ok k -> print_token (start_token k) = print_open k.
 Proof.
   destruct k as [| | |cls|l|n]; cbn [tag_ok]; intros H; try reflexivity.
-  - destruct cls; cbn; rewrite ?app_nil_r; reflexivity.
-  - destruct H as [H _]. cbn. rewrite (escape_id _ H). reflexivity.
-  - destruct H as [H _]. cbn. rewrite (escape_id _ H). reflexivity.
+  destruct cls; cbn; rewrite ?app_nil_r; reflexivity.
 Qed.
-Lemma print_end k : print_token (TEnd (tag_name k)) = print_close k.
-Proof. reflexivity. Qed.
 
-Lemma print_tokens_app a b : print_tokens (a ++ b) = print_tokens a ++ print_tokens b.
-Proof. unfold print_tokens. apply flat_map_app. Qed.
-
-Lemma print_tree : forall n, wf_node n -> print_node (node_of n) = print_tokens (tokens_of n).
+Lemma items_print_app a b : items_print (a ++ b) = items_print a ++ items_print b.
+Proof. unfold items_print. apply flat_map_app. Qed.
+Lemma print_pieces ps : flat_map print_node (map piece_node ps) = pieces_print ps.
 Proof.
-  induction n as [t|k cs IH] using snode_ind'; intros W.
-  - cbn. rewrite app_nil_r. reflexivity.
-  - inversion W as [|? ? Hk Hcs Hadj]; subst.
-    cbn [node_of print_node tokens_of]. unfold print_tokens at 1. cbn [flat_map]. fold (print_tokens (flat_map tokens_of cs ++ [TEnd (tag_name k)])).
-    rewrite print_tokens_app, print_start by exact Hk. cbn [print_tokens flat_map]. rewrite print_end, app_nil_r.
-    f_equal. f_equal.
+  induction ps as [|p ps IH]; [reflexivity|]. unfold pieces_print in *. cbn [map flat_map]. rewrite IH.
+  destruct p; reflexivity.
+Qed.
+
+Lemma print_tree : forall n, wf_node n -> flat_map print_node (nodes_of n) = items_print (items_of n).
+Proof.
+  induction n as [ps|t|k cs IH] using snode_ind'; intros W.
+  - cbn [nodes_of items_of]. rewrite print_pieces. unfold items_print. cbn. rewrite app_nil_r. reflexivity.
+  - cbn. rewrite !app_nil_r. reflexivity.
+  - inversion W as [| |? ? Hk Hcs Hadj]; subst.
+    cbn [nodes_of items_of flat_map print_node]. rewrite app_nil_r.
+    change (ITok (start_token k) :: flat_map items_of cs ++ [ITok (TEnd (tag_name k))])
+      with ([ITok (start_token k)] ++ flat_map items_of cs ++ [ITok (TEnd (tag_name k))]).
+    rewrite !items_print_app. unfold items_print at 1 3. cbn [flat_map item_print]. rewrite !app_nil_r.
+    rewrite print_start by exact Hk. f_equal. f_equal.
     clear Hadj Hk W. induction cs as [|c cs IHcs]; [reflexivity|].
     inversion IH; subst. inversion Hcs; subst.
-    cbn [map flat_map]. rewrite print_tokens_app. f_equal; [auto|apply IHcs; assumption].
+    cbn [flat_map]. rewrite flat_map_app, items_print_app. f_equal; [auto|apply IHcs; assumption].
 Qed.
 Lemma print_trees ns : Forall wf_node ns ->
-  print_cue_text (map node_of ns) = print_tokens (flat_map tokens_of ns).
+  print_cue_text (flat_map nodes_of ns) = items_print (flat_map items_of ns).
 Proof.
   induction 1 as [|n ns Hn _ IH]; [reflexivity|].
-  unfold print_cue_text in *. cbn [map flat_map]. rewrite print_tokens_app, IH, print_tree by exact Hn. reflexivity.
+  unfold print_cue_text in *. cbn [flat_map]. rewrite flat_map_app, items_print_app, IH, print_tree by exact Hn. reflexivity.
 Qed.
 
-(* ---- the token list of a well-formed tree is in normal form *)
-Definition head_string (ts : list token) : bool := match ts with t :: _ => is_string t | [] => false end.
-Fixpoint last_string (ts : list token) : bool :=
-  match ts with [] => false | t :: ts' => match ts' with [] => is_string t | _ => last_string ts' end end.
+(* ---- the item list of a well-formed tree is in normal form *)
+Definition head_istr (l : list item) : bool := match l with i :: _ => is_istr i | [] => false end.
+Fixpoint last_istr (l : list item) : bool :=
+  match l with [] => false | i :: l' => match l' with [] => is_istr i | _ => last_istr l' end end.
 
-Lemma nf_app : forall a b, nf_list a -> nf_list b -> last_string a && head_string b = false -> nf_list (a ++ b).
+Lemma nf_app : forall a b, nf_items a -> nf_items b -> last_istr a && head_istr b = false -> nf_items (a ++ b).
 Proof.
   induction a as [|x a IH]; intros b Ha Hb Hl; [exact Hb|].
-  destruct Ha as (Hx & Ha & Hadj). cbn [app nf_list]. split; [exact Hx|]. split.
+  destruct Ha as (Hx & Ha & Hadj). cbn [app nf_items]. split; [exact Hx|]. split.
   - apply IH; [exact Ha|exact Hb|]. destruct a as [|y a]; [reflexivity|exact Hl].
   - destruct a as [|y a]; cbn [app].
     + destruct b as [|z b]; [exact I|]. exact Hl.
@@ -138,127 +192,204 @@ Proof.
   1-3: split; [eexists; eexists; split; [reflexivity|split; [cbn; repeat split; lia|constructor]]|exact I].
   - destruct cls as [|c cls]; (split; [eexists; eexists; split; [reflexivity|split; [cbn; repeat split; lia|constructor]]|]);
       [exact I|split; [discriminate|exact H]].
-  - destruct H as [H1 H2]. split.
+  - unfold annot_ok in H. split.
     + eexists; eexists; split; [reflexivity|split; [cbn; repeat split; lia|]]. repeat constructor; lia.
-    + split; [constructor|]. split; [|exact H2]. eapply Forall_impl; [|exact H1]. unfold annot_char. cbn. intros; lia.
-  - destruct H as [H1 H2]. split.
+    + split; [constructor|exact H].
+  - unfold annot_ok in H. split.
     + eexists; eexists; split; [reflexivity|split; [cbn; repeat split; lia|constructor]].
-    + split; [constructor|]. split; [|exact H2]. eapply Forall_impl; [|exact H1]. unfold annot_char. cbn. intros; lia.
+    + split; [constructor|exact H].
 Qed.
-Lemma nf_end k : nf_token (TEnd (tag_name k)).
-Proof. destruct k; cbn; repeat constructor; lia. Qed.
+Lemma start_not_string k : is_string (start_token k) = false.
+Proof. destruct k as [| | |[|]| |]; reflexivity. Qed.
+Lemma nf_ts t : wf_ts t -> nf_token (TTs (print_ts t)).
+Proof.
+  intros W. destruct (print_ts_head t W) as (c & r & E & D). cbn [nf_token]. exists c, r. split; [exact E|].
+  split; [apply dig_is_digit; exact D|].
+  pose proof (print_ts_chars t W) as F. rewrite E in F. inversion F as [|? ? _ Fr]; subst.
+  eapply Forall_impl; [|exact Fr]. cbn. unfold dig. intros a [Ha|[Ha|Ha]]; lia.
+Qed.
+Lemma nf_end_tag tag : Forall (fun c => c <> 62) tag -> nf_item (ITok (TEnd tag)).
+Proof. intros H. split; [exact H|reflexivity]. Qed.
+Lemma nf_end k : nf_item (ITok (TEnd (tag_name k))).
+Proof. apply nf_end_tag. destruct k; cbn; repeat constructor; lia. Qed.
+Lemma nf_text ps : text_ok ps -> nf_item (IStr ps).
+Proof.
+  intros (Hne & Hg & Hv). split; [exact Hne|]. split.
+  - eapply Forall_impl; [|exact Hg]. apply piece_good_ok.
+  - rewrite pieces_value_svalue by exact Hg. exact Hv.
+Qed.
 
-Lemma tokens_head n : head_string (tokens_of n) = is_text n.
-Proof. destruct n as [t|k cs]; [reflexivity|]. destruct k as [| | |[|]| |]; reflexivity. Qed.
-Lemma last_string_app : forall a b, b <> [] -> last_string (a ++ b) = last_string b.
+Lemma items_head n : head_istr (items_of n) = is_text n.
+Proof. destruct n as [t|t|k cs]; reflexivity. Qed.
+Lemma last_istr_app : forall a b, b <> [] -> last_istr (a ++ b) = last_istr b.
 Proof.
   induction a as [|x a IH]; intros b Hb; [reflexivity|].
   cbn [app]. specialize (IH b Hb). destruct (a ++ b) eqn:E.
   - destruct a; [cbn in E; contradiction|discriminate].
-  - cbn [last_string] in *. exact IH.
+  - cbn [last_istr] in *. exact IH.
 Qed.
-Lemma tokens_last n : last_string (tokens_of n) = is_text n.
+Lemma items_last n : last_istr (items_of n) = is_text n.
 Proof.
-  destruct n as [t|k cs]; [reflexivity|]. cbn [tokens_of is_text].
-  change (start_token k :: flat_map tokens_of cs ++ [TEnd (tag_name k)])
-    with ((start_token k :: flat_map tokens_of cs) ++ [TEnd (tag_name k)]).
-  rewrite last_string_app by discriminate. reflexivity.
+  destruct n as [t|t|k cs]; [reflexivity|reflexivity|]. cbn [items_of is_text].
+  change (ITok (start_token k) :: flat_map items_of cs ++ [ITok (TEnd (tag_name k))])
+    with ((ITok (start_token k) :: flat_map items_of cs) ++ [ITok (TEnd (tag_name k))]).
+  rewrite last_istr_app by discriminate. reflexivity.
 Qed.
-Lemma tokens_nonempty n : tokens_of n <> [].
+Lemma items_nonempty n : items_of n <> [].
 Proof. destruct n; discriminate. Qed.
 
-Lemma nf_nodes : forall ns, Forall (fun n => wf_node n -> nf_list (tokens_of n)) ns ->
+Lemma nf_nodes : forall ns, Forall (fun n => wf_node n -> nf_items (items_of n)) ns ->
   Forall wf_node ns -> no_adj ns ->
-  nf_list (flat_map tokens_of ns) /\
-  head_string (flat_map tokens_of ns) = match ns with n :: _ => is_text n | [] => false end.
+  nf_items (flat_map items_of ns) /\
+  head_istr (flat_map items_of ns) = match ns with n :: _ => is_text n | [] => false end.
 Proof.
   induction ns as [|n ns IH]; intros HP Hw Hadj; [split; [exact I|reflexivity]|].
   inversion HP; subst. inversion Hw; subst. destruct Hadj as [Hxy Hadj].
   destruct (IH H2 H4 Hadj) as [Hnf Hhead]. cbn [flat_map]. split.
-  - apply nf_app; [auto|exact Hnf|]. rewrite tokens_last, Hhead. destruct ns; [apply andb_false_r|exact Hxy].
-  - pose proof (tokens_nonempty n) as Hne. pose proof (tokens_head n) as Hh.
-    destruct (tokens_of n) eqn:E; [contradiction|]. exact Hh.
+  - apply nf_app; [auto|exact Hnf|]. rewrite items_last, Hhead. destruct ns; [apply andb_false_r|exact Hxy].
+  - pose proof (items_nonempty n) as Hne. pose proof (items_head n) as Hh.
+    destruct (items_of n) eqn:E; [contradiction|]. exact Hh.
 Qed.
 
-Lemma nf_tree : forall n, wf_node n -> nf_list (tokens_of n).
+Lemma nf_tree : forall n, wf_node n -> nf_items (items_of n).
 Proof.
-  induction n as [t|k cs IH] using snode_ind'; intros W; inversion W as [? Ht|? ? Hk Hcs Hadj]; subst.
-  - cbn. repeat split; assumption.
-  - cbn [tokens_of].
+  induction n as [t|t|k cs IH] using snode_ind'; intros W; inversion W as [? Ht|? Ht|? ? Hk Hcs Hadj]; subst.
+  - cbn [items_of nf_items]. split; [apply nf_text; exact Ht|split; exact I].
+  - cbn [items_of nf_items]. split; [split; [apply nf_ts; exact Ht|reflexivity]|split; exact I].
+  - cbn [items_of].
     destruct (nf_nodes cs IH Hcs Hadj) as [Hnf _].
-    change (start_token k :: flat_map tokens_of cs ++ [TEnd (tag_name k)])
-      with ([start_token k] ++ flat_map tokens_of cs ++ [TEnd (tag_name k)]).
+    change (ITok (start_token k) :: flat_map items_of cs ++ [ITok (TEnd (tag_name k))])
+      with ([ITok (start_token k)] ++ flat_map items_of cs ++ [ITok (TEnd (tag_name k))]).
     apply nf_app.
-    + cbn. split; [apply nf_start; exact Hk|split; exact I].
+    + cbn. split; [split; [apply nf_start; exact Hk|apply start_not_string]|split; exact I].
     + apply nf_app; [exact Hnf|cbn; split; [apply nf_end|split; exact I]|apply andb_false_r].
-    + assert (is_string (start_token k) = false) by (destruct k as [| | |[|]| |]; reflexivity).
-      cbn [last_string]. rewrite H. reflexivity.
+    + reflexivity.
 Qed.
-Lemma nf_trees ns : wf_nodes ns -> nf_list (flat_map tokens_of ns).
+Lemma nf_trees ns : wf_nodes ns -> nf_items (flat_map items_of ns).
 Proof.
   intros [Hw Hadj]. apply nf_nodes; [|exact Hw|exact Hadj].
   apply Forall_forall. intros n _. apply nf_tree.
 Qed.
 
 (* ---- the parser on the tokens of a tree *)
-Definition span_frame (f : frame) : Prop := match f with FNode KSpan _ _ => True | _ => False end.
-Definition regular (s : pstate) : Prop := p_above s = 0 /\ p_ruby s = false /\ Forall span_frame (p_stack s).
+(* the current parent is the paragraph or a span *)
+Definition regular (s : pstate) : Prop :=
+  p_above s = 0 /\ match p_stack s with [] => True | FNode KSpan _ _ :: _ => True | _ => False end.
+(* the current parent is an rt element *)
+Definition in_rt (s : pstate) : Prop :=
+  p_above s = 0 /\ match p_stack s with FNode KRt _ _ :: _ => True | _ => False end.
 Definition add_all (es : list elem) (s : pstate) : pstate := fold_left (fun s e => add_leaf e s) es s.
+Definition set_begin (b : option Q) (s : pstate) : pstate := mkP (p_root s) (p_stack s) (p_above s) (p_ruby s) b.
+(* the effect of a parsed forest: its elements are appended to the current parent, self.begin becomes its last time *)
+Definition apply_res (r : list elem * option Q) (s : pstate) : pstate := set_begin (snd r) (add_all (fst r) s).
 
-Lemma regular_add_leaf e s : regular s -> regular (add_leaf e s) /\ parent_is_p (add_leaf e s) = parent_is_p s.
+Lemma add_leaf_facts e s :
+  p_above (add_leaf e s) = p_above s /\ parent_is_p (add_leaf e s) = parent_is_p s /\ p_begin (add_leaf e s) = p_begin s /\
+  p_ruby (add_leaf e s) = p_ruby s /\
+  match p_stack s with
+  | [] => p_stack (add_leaf e s) = []
+  | FNode k a d :: st => p_stack (add_leaf e s) = FNode k a (d ++ [e]) :: st
+  | FRuby b t :: st => p_stack (add_leaf e s) = FRuby b (t ++ [e]) :: st
+  end.
 Proof.
-  destruct s as [root st ab rb]. unfold regular, add_leaf, attach, parent_is_p. cbn [p_above p_ruby p_stack p_root].
-  intros (A & B & F). destruct st as [|[k a d|b t] st]; cbn [p_above p_ruby p_stack].
-  - repeat split; auto.
-  - inversion F; subst. repeat split; auto; try (constructor; assumption).
-  - inversion F; subst. contradiction.
+  destruct s as [root st ab rb bg]. unfold add_leaf, attach, parent_is_p. cbn [p_above p_ruby p_stack p_root p_begin].
+  destruct st as [|[k a d|b t] st]; cbn [p_above p_ruby p_stack p_begin is_nil]; repeat split; reflexivity.
 Qed.
-Lemma regular_add_all es : forall s, regular s -> regular (add_all es s) /\ parent_is_p (add_all es s) = parent_is_p s.
+Lemma regular_add_leaf e s : regular s -> regular (add_leaf e s).
 Proof.
-  induction es as [|e es IH]; intros s R; [split; [exact R|reflexivity]|].
-  cbn [add_all fold_left]. destruct (regular_add_leaf e s R) as [R1 P1].
-  destruct (IH _ R1) as [R2 P2]. split; [exact R2|]. unfold add_all in P2. rewrite P2. exact P1.
+  intros [A T]. destruct (add_leaf_facts e s) as (A' & _ & _ & _ & S'). split; [rewrite A'; exact A|].
+  destruct (p_stack s) as [|[[| |] a d|b t] st]; try contradiction; rewrite S'; exact I.
 Qed.
+Lemma in_rt_add_leaf e s : in_rt s -> in_rt (add_leaf e s).
+Proof.
+  intros [A T]. destruct (add_leaf_facts e s) as (A' & _ & _ & _ & S'). split; [rewrite A'; exact A|].
+  destruct (p_stack s) as [|[[| |] a d|b t] st]; try contradiction; rewrite S'; exact I.
+Qed.
+Lemma add_all_facts es : forall s,
+  parent_is_p (add_all es s) = parent_is_p s /\ p_begin (add_all es s) = p_begin s /\ p_above (add_all es s) = p_above s /\
+  p_ruby (add_all es s) = p_ruby s.
+Proof.
+  induction es as [|e es IH]; intros s; [repeat split; reflexivity|].
+  cbn [add_all fold_left]. destruct (add_leaf_facts e s) as (A & P & B & R & _).
+  destruct (IH (add_leaf e s)) as (P2 & B2 & A2 & R2). unfold add_all in *. rewrite P2, B2, A2, R2. repeat split; assumption.
+Qed.
+Lemma regular_add_all es : forall s, regular s -> regular (add_all es s).
+Proof. induction es as [|e es IH]; intros s R; [exact R|]. cbn [add_all fold_left]. apply IH. apply regular_add_leaf. exact R. Qed.
+Lemma in_rt_add_all es : forall s, in_rt s -> in_rt (add_all es s).
+Proof. induction es as [|e es IH]; intros s R; [exact R|]. cbn [add_all fold_left]. apply IH. apply in_rt_add_leaf. exact R. Qed.
 Lemma add_all_app a b s : add_all (a ++ b) s = add_all b (add_all a s).
 Proof. unfold add_all. apply fold_left_app. Qed.
-
-Lemma push_check_regular s c : regular s -> c <> VttReader.CRuby -> push_check s c = None.
+Lemma set_begin_same s : set_begin (p_begin s) s = s.
+Proof. destruct s; reflexivity. Qed.
+Lemma add_leaf_set_begin e b s : add_leaf e (set_begin b s) = set_begin b (add_leaf e s).
+Proof. destruct s as [r st ab rb bg]. unfold add_leaf, set_begin. cbn [p_root p_stack p_above p_ruby p_begin]. destruct (attach e r st). reflexivity. Qed.
+Lemma add_all_set_begin es : forall b s, add_all es (set_begin b s) = set_begin b (add_all es s).
 Proof.
-  destruct s as [root st ab rb]. unfold regular, push_check. cbn [p_above p_ruby p_stack].
-  intros (-> & _ & F) Hc. cbn. destruct st as [|[[| |] a d|b t] st]; try reflexivity; inversion F; subst; try contradiction.
-  destruct c; try reflexivity. contradiction.
+  induction es as [|e es IH]; intros b s; [reflexivity|]. cbn [add_all fold_left].
+  rewrite add_leaf_set_begin. apply IH.
+Qed.
+Lemma apply_facts r s : parent_is_p (apply_res r s) = parent_is_p s /\ p_begin (apply_res r s) = snd r.
+Proof. unfold apply_res. destruct (add_all_facts (fst r) s) as (P & _). split; [exact P|reflexivity]. Qed.
+Lemma regular_apply r s : regular s -> regular (apply_res r s).
+Proof. intros R. apply (regular_add_all (fst r)) in R. exact R. Qed.
+Lemma in_rt_apply r s : in_rt s -> in_rt (apply_res r s).
+Proof. intros R. apply (in_rt_add_all (fst r)) in R. exact R. Qed.
+Lemma apply_res_app e1 n1 e2 n2 s : apply_res (e2, n2) (apply_res (e1, n1) s) = apply_res (e1 ++ e2, n2) s.
+Proof.
+  unfold apply_res. cbn [fst snd]. rewrite add_all_set_begin, add_all_app.
+  destruct (add_all e2 (add_all e1 s)); reflexivity.
+Qed.
+Lemma apply_res_nil s : apply_res ([], p_begin s) s = s.
+Proof. unfold apply_res. cbn [fst snd add_all fold_left]. apply set_begin_same. Qed.
+
+(* a span may be added to the paragraph, a span or an rt *)
+Lemma push_span_ok s : regular s \/ in_rt s -> push_check s CSpan = None.
+Proof.
+  destruct s as [root st ab rb bg]. unfold regular, in_rt, push_check. cbn [p_above p_ruby p_stack].
+  intros [[-> T]|[-> T]]; cbn; destruct st as [|[[| |] a d|b t] st]; try reflexivity; contradiction.
+Qed.
+Lemma push_br_ok s : regular s -> push_check s CBr = None.
+Proof.
+  destruct s as [root st ab rb bg]. unfold regular, push_check. cbn [p_above p_ruby p_stack].
+  intros [-> T]; cbn; destruct st as [|[[| |] a d|b t] st]; try reflexivity; contradiction.
 Qed.
 
-Lemma make_span_attrs_regular s : regular s -> make_span_attrs s = base_attrs (parent_is_p s).
-Proof. intros _. unfold make_span_attrs, base_attrs. destruct (parent_is_p s); reflexivity. Qed.
+Lemma make_span_attrs_eq s : make_span_attrs s = base_attrs (parent_is_p s).
+Proof. unfold make_span_attrs, base_attrs. destruct (parent_is_p s); reflexivity. Qed.
+
+Lemma push_line_ok l s : regular s \/ in_rt s ->
+  push_text_line l s = inl (add_leaf (ENode KSpan (with_begin (p_begin s) (base_attrs (parent_is_p s))) [EText l]) s).
+Proof.
+  intros R. unfold push_text_line.
+  replace (p_above s =? 3) with false by (destruct R as [[-> _]|[-> _]]; reflexivity).
+  rewrite make_span_attrs_eq. rewrite (push_span_ok s R).
+  destruct (p_stack s) as [|[k a d|b t] st] eqn:Es; try reflexivity.
+  exfalso. destruct R as [[_ T]|[_ T]]; rewrite Es in T; exact T.
+Qed.
 
 Lemma push_lines : forall ls first s, regular s ->
-  push_text_lines first ls s = inl (add_all (lines_elems (parent_is_p s) first ls) s).
+  push_text_lines first ls s = inl (add_all (lines_elems (parent_is_p s) (p_begin s) first ls) s).
 Proof.
   induction ls as [|l ls IH]; intros first s R; [reflexivity|].
   cbn [push_text_lines lines_elems].
-  assert (Hab : p_above s =? 3 = false) by (destruct R as (-> & _); reflexivity).
   destruct first.
-  - unfold push_text_line. rewrite Hab.
-    destruct (p_stack s) as [|[k a d|b t] st] eqn:Es.
-    + rewrite push_check_regular by (auto; discriminate).
-      destruct (regular_add_leaf (ENode KSpan (make_span_attrs s) [EText l]) s R) as [R1 P1].
-      rewrite IH by exact R1. rewrite P1. rewrite make_span_attrs_regular by exact R. reflexivity.
-    + rewrite push_check_regular by (auto; discriminate).
-      destruct (regular_add_leaf (ENode KSpan (make_span_attrs s) [EText l]) s R) as [R1 P1].
-      rewrite IH by exact R1. rewrite P1. rewrite make_span_attrs_regular by exact R. reflexivity.
-    + destruct R as (_ & _ & F). rewrite Es in F. inversion F; subst. contradiction.
-  - rewrite push_check_regular by (auto; discriminate).
-    destruct (regular_add_leaf EBr s R) as [R0 P0].
-    unfold push_text_line. replace (p_above (add_leaf EBr s) =? 3) with false by (destruct R0 as (-> & _); reflexivity).
-    destruct (p_stack (add_leaf EBr s)) as [|[k a d|b t] st] eqn:Es.
-    + rewrite push_check_regular by (auto; discriminate).
-      destruct (regular_add_leaf (ENode KSpan (make_span_attrs (add_leaf EBr s)) [EText l]) _ R0) as [R1 P1].
-      rewrite IH by exact R1. rewrite P1, P0. rewrite make_span_attrs_regular by exact R0. rewrite P0. reflexivity.
-    + rewrite push_check_regular by (auto; discriminate).
-      destruct (regular_add_leaf (ENode KSpan (make_span_attrs (add_leaf EBr s)) [EText l]) _ R0) as [R1 P1].
-      rewrite IH by exact R1. rewrite P1, P0. rewrite make_span_attrs_regular by exact R0. rewrite P0. reflexivity.
-    + destruct R0 as (_ & _ & F). rewrite Es in F. inversion F; subst. contradiction.
+  - rewrite push_line_ok by (left; exact R).
+    pose proof (regular_add_leaf (ENode KSpan (with_begin (p_begin s) (base_attrs (parent_is_p s))) [EText l]) s R) as R1.
+    destruct (add_leaf_facts (ENode KSpan (with_begin (p_begin s) (base_attrs (parent_is_p s))) [EText l]) s) as (_ & P1 & B1 & _).
+    rewrite IH by exact R1. rewrite P1, B1. reflexivity.
+  - rewrite push_br_ok by exact R.
+    pose proof (regular_add_leaf EBr s R) as R0. destruct (add_leaf_facts EBr s) as (_ & P0 & B0 & _).
+    rewrite push_line_ok by (left; exact R0). rewrite P0, B0.
+    pose proof (regular_add_leaf (ENode KSpan (with_begin (p_begin s) (base_attrs (parent_is_p s))) [EText l]) _ R0) as R1.
+    destruct (add_leaf_facts (ENode KSpan (with_begin (p_begin s) (base_attrs (parent_is_p s))) [EText l]) (add_leaf EBr s)) as (_ & P1 & B1 & _).
+    rewrite IH by exact R1. rewrite P1, B1, P0, B0. reflexivity.
+Qed.
+
+Lemma split_no_lf : forall t cur, mem_z 10 t = false -> split_on_aux 10 cur t = [cur ++ t].
+Proof.
+  induction t as [|c t IH]; intros cur H; [rewrite app_nil_r; reflexivity|].
+  unfold mem_z in H. cbn [existsb] in H. apply orb_false_iff in H as [Hc Ht].
+  cbn [split_on_aux]. replace (c =? 10) with false by lia. rewrite IH by exact Ht. rewrite <- app_assoc. reflexivity.
 Qed.
 
 Lemma handle_tokens_app pb att : forall a b s,
@@ -269,16 +400,23 @@ Proof.
   destruct (handle_token pb att t s); [apply IH|reflexivity].
 Qed.
 
-Lemma add_all_top es : forall r k a d st ab rb,
-  add_all es (mkP r (FNode k a d :: st) ab rb) = mkP r (FNode k a (d ++ es) :: st) ab rb.
+Lemma add_all_top es : forall r k a d st ab rb bg,
+  add_all es (mkP r (FNode k a d :: st) ab rb bg) = mkP r (FNode k a (d ++ es) :: st) ab rb bg.
 Proof.
   induction es as [|e es IH]; intros; [rewrite app_nil_r; reflexivity|].
-  cbn [add_all fold_left]. unfold add_leaf at 2. cbn [attach p_root p_stack p_above p_ruby].
-  fold (add_all es (mkP r (FNode k a (d ++ [e]) :: st) ab rb)). rewrite IH, <- app_assoc. reflexivity.
+  cbn [add_all fold_left]. unfold add_leaf at 2. cbn [attach p_root p_stack p_above p_ruby p_begin].
+  fold (add_all es (mkP r (FNode k a (d ++ [e]) :: st) ab rb bg)). rewrite IH, <- app_assoc. reflexivity.
 Qed.
-Lemma pop_open es k a s : pop (add_all es (open_node k a s)) = add_leaf (ENode k a es) s.
+(* closing an element whose content was the forest r: the element is appended to its parent, self.begin stays *)
+Lemma pop_open r k a s : pop (apply_res r (open_node k a s)) = apply_res ([ENode k a (fst r)], snd r) s.
 Proof.
-  destruct s as [r st ab rb]. unfold open_node. cbn [p_root p_stack p_above p_ruby].
+  destruct s as [rt st ab rb bg]. unfold apply_res, open_node, set_begin. cbn [p_root p_stack p_above p_ruby p_begin fst snd].
+  rewrite add_all_top. cbn [add_all fold_left]. unfold pop, add_leaf. cbn [p_root p_stack p_above p_ruby p_begin close_frame app].
+  destruct (attach (ENode k a (fst r)) rt st). reflexivity.
+Qed.
+Lemma open_stack r k a s : p_stack (apply_res r (open_node k a s)) = FNode k a (fst r) :: p_stack s.
+Proof.
+  destruct s as [rt st ab rb bg]. unfold apply_res, open_node, set_begin. cbn [p_root p_stack p_above p_ruby p_begin fst snd].
   rewrite add_all_top. reflexivity.
 Qed.
 
@@ -289,7 +427,7 @@ Lemma style_tag_expected k a :
   end.
 Proof. destruct k as [| | |[|c cls]|l|n]; reflexivity. Qed.
 
-Lemma handle_start_tag k s : regular s ->
+Lemma handle_start_tag k s : push_check s CSpan = None ->
   match start_token k with
   | TStart tag cls an =>
     handle_start tag cls an s = inl (open_node KSpan (expected_attrs k (base_attrs (parent_is_p s))) s)
@@ -297,80 +435,117 @@ Lemma handle_start_tag k s : regular s ->
   end.
 Proof.
   intros R. pose proof (style_tag_expected k (make_span_attrs s)) as H.
-  rewrite make_span_attrs_regular in H by exact R.
+  rewrite make_span_attrs_eq in H.
   destruct k as [| | |[|c cls]|l|n]; cbn [start_token] in *; unfold handle_start;
     (replace (starts_with s_ruby (lower _)) with false by reflexivity);
-    (replace (starts_with s_rt (lower _)) with false by reflexivity);
-    rewrite push_check_regular by (auto; discriminate); rewrite make_span_attrs_regular by exact R; rewrite H; reflexivity.
+    (replace (starts_with s_rt (lower _)) with false by reflexivity); cbn [andb];
+    rewrite R; rewrite make_span_attrs_eq; rewrite H; reflexivity.
 Qed.
 
-Lemma regular_open k a s : regular s -> k = KSpan -> regular (open_node k a s) /\ parent_is_p (open_node k a s) = false.
+Lemma regular_open a s : p_above s = 0 ->
+  regular (open_node KSpan a s) /\ parent_is_p (open_node KSpan a s) = false /\ p_begin (open_node KSpan a s) = p_begin s.
 Proof.
-  intros (A & B & F) ->. unfold regular, open_node, parent_is_p. cbn [p_above p_ruby p_stack].
-  repeat split; auto. - constructor; [exact I|exact F]. - rewrite A. reflexivity.
+  intros A. unfold regular, open_node, parent_is_p. cbn [p_above p_ruby p_stack p_begin].
+  repeat split; auto. rewrite A. reflexivity.
 Qed.
 
-Lemma parse_tree pb att : forall n, wf_node n -> forall rest s, regular s ->
+Lemma handle_ts_print pb t s : wf_ts t ->
+  handle_ts pb (print_ts t) s = inl (apply_res ([], ts_begin pb (p_begin s) t) s).
+Proof.
+  intros W. unfold handle_ts, apply_res, ts_begin. rewrite exact_time by exact W. cbn [fst snd add_all fold_left].
+  destruct (Qle_bool pb (Qmake (ts_ms t) 1000)); [reflexivity|]. rewrite set_begin_same. reflexivity.
+Qed.
+
+(* what one node does to the parser state *)
+Definition node_eqn (pb : Q) (att : bool) (n : snode) : Prop := forall rest s, regular s ->
   handle_tokens pb att (tokens_of n ++ rest) s =
-  handle_tokens pb att rest (add_all (span_of (parent_is_p s) n) s).
+  handle_tokens pb att rest (apply_res (span_of pb (parent_is_p s) (p_begin s) n) s).
+
+(* a list of nodes, over any class of states that is closed under appending parsed forests *)
+Lemma parse_list pb att (oks : pstate -> Prop) (okn : snode -> Prop) :
+  (forall r s, oks s -> oks (apply_res r s)) ->
+  forall cs, Forall (fun n => okn n -> forall rest s, oks s ->
+                       handle_tokens pb att (tokens_of n ++ rest) s =
+                       handle_tokens pb att rest (apply_res (span_of pb (parent_is_p s) (p_begin s) n) s)) cs ->
+  Forall okn cs -> forall rest s, oks s ->
+  handle_tokens pb att (tokens_of_list cs ++ rest) s =
+  handle_tokens pb att rest (apply_res (spans_of pb (parent_is_p s) (p_begin s) cs) s).
 Proof.
-  induction n as [t|k cs IH] using snode_ind'; intros W rest s R.
-  - cbn [tokens_of app handle_tokens handle_token span_of]. unfold handle_string.
-    rewrite push_lines by exact R. reflexivity.
-  - inversion W as [|? ? Hk Hcs Hadj]; subst.
-    cbn [tokens_of app handle_tokens]. pose proof (handle_start_tag k s R) as Hs.
-    destruct (start_token k) as [|tag cls an| |] eqn:Et; try contradiction.
-    cbn [handle_token]. rewrite Hs.
-    set (a := expected_attrs k (base_attrs (parent_is_p s))).
-    destruct (regular_open KSpan a s R eq_refl) as [R1 P1].
-    (* children *)
-    assert (Hch : forall cs', Forall (fun n => wf_node n -> forall rest s, regular s ->
-                     handle_tokens pb att (tokens_of n ++ rest) s =
-                     handle_tokens pb att rest (add_all (span_of (parent_is_p s) n) s)) cs' ->
-                   Forall wf_node cs' -> forall rest s, regular s -> parent_is_p s = false ->
-                   handle_tokens pb att (flat_map tokens_of cs' ++ rest) s =
-                   handle_tokens pb att rest (add_all (flat_map (span_of false) cs') s)).
-    { clear. induction cs' as [|c cs' IHc]; intros HP Hw rest s R P; [reflexivity|].
-      inversion HP; subst. inversion Hw; subst.
-      cbn [flat_map]. rewrite <- app_assoc. rewrite H1 by assumption. rewrite P.
-      destruct (regular_add_all (span_of false c) s R) as [R' P'].
-      rewrite IHc; [|assumption|assumption|exact R'|rewrite P'; exact P].
-      rewrite add_all_app. reflexivity. }
-    rewrite <- app_assoc. rewrite (Hch cs IH Hcs _ _ R1 P1).
-    cbn [app handle_tokens handle_token].
-    destruct (regular_add_all (flat_map (span_of false) cs) _ R1) as [R2 _].
-    unfold handle_end.
-    replace (p_above (add_all (flat_map (span_of false) cs) (open_node KSpan a s)) =? 3) with false
-      by (destruct R2 as (-> & _); reflexivity).
-    replace (0 <? p_above (add_all (flat_map (span_of false) cs) (open_node KSpan a s))) with false
-      by (destruct R2 as (-> & _); reflexivity).
-    pose proof (pop_open (flat_map (span_of false) cs) KSpan a s) as Hp.
-    destruct s as [r st ab rb]. unfold open_node in *. cbn [p_root p_stack p_above p_ruby] in *.
-    rewrite add_all_top in *. cbn [p_stack]. rewrite Hp. cbn [span_of add_all fold_left]. reflexivity.
+  intros Hclosed. induction cs as [|c cs IHc]; intros HP Hw rest s R.
+  - cbn [tokens_of_list flat_map map app spans_of]. rewrite apply_res_nil. reflexivity.
+  - inversion HP; subst. inversion Hw; subst.
+    rewrite tokens_of_list_cons. cbn [spans_of]. rewrite <- app_assoc. rewrite H1 by assumption.
+    destruct (span_of pb (parent_is_p s) (p_begin s) c) as [e1 n1] eqn:E1.
+    destruct (apply_facts (e1, n1) s) as (P' & B').
+    rewrite IHc; [|assumption|assumption|apply Hclosed; exact R].
+    rewrite P', B'. cbn [snd]. destruct (spans_of pb (parent_is_p s) n1 cs) as [e2 n2].
+    rewrite apply_res_app. reflexivity.
 Qed.
 
-Lemma parse_trees pb att : forall ns, Forall wf_node ns -> forall s, regular s ->
-  handle_tokens pb att (flat_map tokens_of ns) s = inl (add_all (spans_of (parent_is_p s) ns) s).
+(* an element: from any state whose current parent accepts a span *)
+Lemma parse_tag pb att k cs : tag_ok k -> Forall wf_node cs -> Forall (fun n => wf_node n -> node_eqn pb att n) cs ->
+  forall rest s, p_above s = 0 -> push_check s CSpan = None ->
+  handle_tokens pb att (tokens_of (STag k cs) ++ rest) s =
+  handle_tokens pb att rest (apply_res (span_of pb (parent_is_p s) (p_begin s) (STag k cs)) s).
 Proof.
-  induction ns as [|n ns IH]; intros Hw s R; [reflexivity|]. inversion Hw; subst.
-  cbn [flat_map]. rewrite parse_tree by assumption.
-  destruct (regular_add_all (span_of (parent_is_p s) n) s R) as [R' P'].
-  rewrite IH by assumption. rewrite P'. unfold spans_of. cbn [flat_map]. rewrite add_all_app. reflexivity.
+  intros Hk Hcs IH rest s A Hpush.
+  rewrite tokens_of_tag. cbn [app handle_tokens]. pose proof (handle_start_tag k s Hpush) as Hs.
+  destruct (start_token k) as [|tag cls an| |] eqn:Et; try contradiction.
+  cbn [handle_token]. rewrite Hs.
+  set (a := expected_attrs k (base_attrs (parent_is_p s))).
+  destruct (regular_open a s A) as (R1 & P1 & B1).
+  rewrite <- app_assoc.
+  rewrite (parse_list pb att regular wf_node regular_apply cs IH Hcs _ _ R1). rewrite P1, B1.
+  cbn [app handle_tokens handle_token].
+  rewrite span_of_tag. destruct (spans_of pb false (p_begin s) cs) as [es now'] eqn:Es.
+  pose proof (regular_apply (es, now') _ R1) as R2.
+  unfold handle_end.
+  replace (p_above (apply_res (es, now') (open_node KSpan a s)) =? 3) with false
+    by (destruct R2 as (-> & _); reflexivity).
+  replace (0 <? p_above (apply_res (es, now') (open_node KSpan a s))) with false
+    by (destruct R2 as (-> & _); reflexivity).
+  rewrite open_stack. rewrite pop_open. reflexivity.
 Qed.
 
-Lemma add_all_root es : forall r, add_all es (mkP r [] 0 false) = mkP (r ++ es) [] 0 false.
+Lemma parse_tree pb att : forall n, wf_node n -> node_eqn pb att n.
 Proof.
-  induction es as [|e es IH]; intros r; [rewrite app_nil_r; reflexivity|].
-  cbn [add_all fold_left]. unfold add_leaf at 2. cbn [attach p_root p_stack p_above p_ruby].
-  fold (add_all es (mkP (r ++ [e]) [] 0 false)). rewrite IH, <- app_assoc. reflexivity.
+  induction n as [ps|t|k cs IH] using snode_ind'; intros W rest s R.
+  - inversion W as [? (Hne & Hg & Hv)| |]; subst.
+    unfold tokens_of. cbn [items_of map item_token app handle_tokens handle_token span_of]. unfold handle_string.
+    rewrite pieces_value_svalue by exact Hg.
+    rewrite push_lines by exact R. unfold apply_res. cbn [fst snd].
+    rewrite <- add_all_set_begin, set_begin_same. reflexivity.
+  - inversion W as [|? Ht|]; subst.
+    unfold tokens_of. cbn [items_of map item_token app handle_tokens handle_token span_of].
+    rewrite handle_ts_print by exact Ht. reflexivity.
+  - inversion W as [| |? ? Hk Hcs Hadj]; subst.
+    apply parse_tag; [exact Hk|exact Hcs|exact IH|destruct R as [A _]; exact A|apply push_span_ok; left; exact R].
 Qed.
 
+Lemma parse_trees pb att : forall ns, Forall wf_node ns -> forall rest s, regular s ->
+  handle_tokens pb att (tokens_of_list ns ++ rest) s =
+  handle_tokens pb att rest (apply_res (spans_of pb (parent_is_p s) (p_begin s) ns) s).
+Proof.
+  intros ns Hw. apply (parse_list pb att regular wf_node regular_apply); [|exact Hw].
+  apply Forall_forall. intros n _ W. apply parse_tree. exact W.
+Qed.
+
+Lemma add_all_root es : forall r bg, add_all es (mkP r [] 0 false bg) = mkP (r ++ es) [] 0 false bg.
+Proof.
+  induction es as [|e es IH]; intros r bg; [rewrite app_nil_r; reflexivity|].
+  cbn [add_all fold_left]. unfold add_leaf at 2. cbn [attach p_root p_stack p_above p_ruby p_begin].
+  fold (add_all es (mkP (r ++ [e]) [] 0 false bg)). rewrite IH, <- app_assoc. reflexivity.
+Qed.
+
+(* the cue tree theorem for every tree without ruby *)
 Theorem tree_roundtrip pb att ns : wf_nodes ns ->
-  parse_cue_text pb att (print_cue_text (map node_of ns)) = inl (spans_of true ns).
+  parse_cue_text pb att (print_cue_text (flat_map nodes_of ns)) = inl (fst (spans_of pb true None ns)).
 Proof.
   intros W. unfold parse_cue_text. rewrite print_trees by (apply W).
-  rewrite tokenizer_roundtrip by (apply nf_trees; exact W).
-  rewrite parse_trees; [|apply W|repeat split; constructor].
+  rewrite tokenizer_items by (apply nf_trees; exact W).
+  fold (tokens_of_list ns). rewrite <- (app_nil_r (tokens_of_list ns)).
+  rewrite parse_trees; [|apply W|split; [reflexivity|exact I]].
+  cbn [handle_tokens]. unfold apply_res. cbn [parent_is_p p_above p_stack p_begin Z.eqb is_nil andb].
   rewrite add_all_root. reflexivity.
 Qed.
 
@@ -380,10 +555,458 @@ Lemma default_classes_agree :
           webvtt_colors = true.
 Proof. vm_compute. reflexivity. Qed.
 
-Example tree_example :
-  wf_nodes [SText [97;10;98]; STag TgB [STag (TgC [[114;101;100]]) [SText [120]]; SText [121]]; STag (TgLang [101;110]) []].
+(* the six references WebVTT allows by name are good *)
+Lemma webvtt_refs_good :
+  Forall ref_good (map RefNamed [[97;109;112]; [108;116]; [103;116]; [108;114;109]; [114;108;109]; [110;98;115;112]]).
 Proof.
+  repeat constructor; try (apply named_ref_ok; repeat constructor; lia); vm_compute; reflexivity.
+Qed.
+
+(* ================================================================ ruby (outside the recorded finding ruby-structure)
+   A ruby element at the top level of the cue: <ruby> base <rt> annotation </rt> base <rt> … </rt> </ruby>, every base
+   one line of text (literal characters and references), every annotation a forest of text, timestamps and elements
+   with no line break directly inside rt.  What the finding covers is excluded by construction: ruby inside another
+   element, markup / timestamps / line breaks in a base, a line break directly in rt. *)
+Inductive tnode := TPlain (n : snode) | TRuby (segs : list (list piece * list snode)).
+
+Definition seg_node (sg : list piece * list snode) : list cnode * list cnode :=
+  (map piece_node (fst sg), flat_map nodes_of (snd sg)).
+Definition tnodes_of (n : tnode) : list cnode :=
+  match n with TPlain n => nodes_of n | TRuby segs => [CRuby (map seg_node segs)] end.
+
+Definition ruby_tok : token := TStart s_ruby None None.
+Definition rt_tok : token := TStart s_rt None None.
+Definition seg_items (sg : list piece * list snode) : list item :=
+  IStr (fst sg) :: ITok rt_tok :: flat_map items_of (snd sg) ++ [ITok (TEnd s_rt)].
+Definition titems_of (n : tnode) : list item :=
+  match n with
+  | TPlain n => items_of n
+  | TRuby segs => ITok ruby_tok :: flat_map seg_items segs ++ [ITok (TEnd s_ruby)]
+  end.
+
+Definition one_line (ps : list piece) : Prop := mem_z 10 (pieces_svalue ps) = false.
+Definition rt_ok (n : snode) : Prop := match n with SText ps => one_line ps | _ => True end.
+Definition seg_ok (sg : list piece * list snode) : Prop :=
+  text_ok (fst sg) /\ one_line (fst sg) /\ Forall wf_node (snd sg) /\ no_adj (snd sg) /\ Forall rt_ok (snd sg).
+Definition wf_tnode (n : tnode) : Prop := match n with TPlain n => wf_node n | TRuby segs => Forall seg_ok segs end.
+Definition is_ttext (n : tnode) : bool := match n with TPlain n => is_text n | TRuby _ => false end.
+Fixpoint no_tadj (l : list tnode) : Prop :=
+  match l with
+  | x :: l' => match l' with y :: _ => is_ttext x && is_ttext y = false | [] => True end /\ no_tadj l'
+  | [] => True
+  end.
+Definition wf_tnodes (ns : list tnode) : Prop := Forall wf_tnode ns /\ no_tadj ns.
+
+(* the expected ruby: Rbc holds one Rb per base, Rtc one Rt per annotation; the time is threaded base, annotation, … *)
+Fixpoint segs_elems (pb : Q) (now : option Q) (segs : list (list piece * list snode)) : list elem * list elem * option Q :=
+  match segs with
+  | [] => ([], [], now)
+  | sg :: segs' =>
+    let rb := ENode KRb no_attrs [ENode KSpan (with_begin now no_attrs) [EText (pieces_svalue (fst sg))]] in
+    let '(es, n1) := spans_of pb false now (snd sg) in
+    let '(rbs, rts, n2) := segs_elems pb n1 segs' in
+    (rb :: rbs, ENode KRt no_attrs es :: rts, n2)
+  end.
+Definition tspan_of (pb : Q) (now : option Q) (n : tnode) : list elem * option Q :=
+  match n with
+  | TPlain n => span_of pb true now n
+  | TRuby segs => let '(rbs, rts, now') := segs_elems pb now segs in ([ERuby rbs rts], now')
+  end.
+Fixpoint tspans_of (pb : Q) (now : option Q) (ns : list tnode) : list elem * option Q :=
+  match ns with
+  | [] => ([], now)
+  | n :: ns' => let '(e1, n1) := tspan_of pb now n in let '(e2, n2) := tspans_of pb n1 ns' in (e1 ++ e2, n2)
+  end.
+
+(* ---- printing *)
+Lemma print_seg sg : Forall wf_node (snd sg) ->
+  flat_map print_node (fst (seg_node sg)) ++ [60;114;116;62] ++ flat_map print_node (snd (seg_node sg)) ++ [60;47;114;116;62]
+  = items_print (seg_items sg).
+Proof.
+  intros W. unfold seg_node, seg_items. cbn [fst snd].
+  change (IStr (fst sg) :: ITok rt_tok :: flat_map items_of (snd sg) ++ [ITok (TEnd s_rt)])
+    with ([IStr (fst sg); ITok rt_tok] ++ flat_map items_of (snd sg) ++ [ITok (TEnd s_rt)]).
+  rewrite !items_print_app. rewrite print_pieces.
+  fold (print_cue_text (flat_map nodes_of (snd sg))). rewrite print_trees by exact W.
+  unfold items_print. cbn [flat_map item_print]. rewrite ?app_nil_r, <- ?app_assoc. reflexivity.
+Qed.
+Lemma print_ttree n : wf_tnode n -> flat_map print_node (tnodes_of n) = items_print (titems_of n).
+Proof.
+  destruct n as [n|segs]; cbn [wf_tnode tnodes_of titems_of]; [apply print_tree|]. intros W.
+  cbn [flat_map print_node]. rewrite app_nil_r.
+  change (ITok ruby_tok :: flat_map seg_items segs ++ [ITok (TEnd s_ruby)])
+    with ([ITok ruby_tok] ++ flat_map seg_items segs ++ [ITok (TEnd s_ruby)]).
+  rewrite !items_print_app. unfold items_print at 1 3. cbn [flat_map item_print]. rewrite ?app_nil_r.
+  change (print_token ruby_tok) with [60;114;117;98;121;62]. change (print_token (TEnd s_ruby)) with [60;47;114;117;98;121;62].
+  f_equal. f_equal.
+  induction W as [|sg segs Hsg _ IH]; [reflexivity|].
+  cbn [map flat_map]. rewrite items_print_app, <- IH.
+  destruct Hsg as (_ & _ & Hw & _). rewrite <- (print_seg sg Hw). rewrite <- !app_assoc. reflexivity.
+Qed.
+Lemma print_ttrees ns : Forall wf_tnode ns ->
+  print_cue_text (flat_map tnodes_of ns) = items_print (flat_map titems_of ns).
+Proof.
+  induction 1 as [|n ns Hn _ IH]; [reflexivity|].
+  unfold print_cue_text in *. cbn [flat_map]. rewrite flat_map_app, items_print_app, IH, print_ttree by exact Hn. reflexivity.
+Qed.
+
+(* ---- normal form *)
+Lemma nf_plain_tok tag : (exists c r, tag = c :: r /\ first_char c /\ Forall name_char r) -> nf_item (ITok (TStart tag None None)).
+Proof. intros H. split; [split; [exact H|exact I]|reflexivity]. Qed.
+Lemma nf_ruby_tok : nf_item (ITok ruby_tok).
+Proof.
+  apply nf_plain_tok. exists 114, [117;98;121]. unfold first_char, name_char. repeat split; try lia; repeat constructor; lia.
+Qed.
+Lemma nf_rt_tok : nf_item (ITok rt_tok).
+Proof.
+  apply nf_plain_tok. exists 114, [116]. unfold first_char, name_char. repeat split; try lia; repeat constructor; lia.
+Qed.
+Lemma nf_seg sg : seg_ok sg -> nf_items (seg_items sg) /\ last_istr (seg_items sg) = false.
+Proof.
+  intros (Hb & _ & Hw & Hadj & _). unfold seg_items. split.
+  - change (IStr (fst sg) :: ITok rt_tok :: flat_map items_of (snd sg) ++ [ITok (TEnd s_rt)])
+      with ([IStr (fst sg); ITok rt_tok] ++ flat_map items_of (snd sg) ++ [ITok (TEnd s_rt)]).
+    apply nf_app.
+    + cbn [nf_items]. split; [apply nf_text; exact Hb|]. split; [|reflexivity]. split; [apply nf_rt_tok|split; exact I].
+    + apply nf_app; [apply nf_trees; split; assumption| |apply andb_false_r].
+      cbn [nf_items]. split; [apply nf_end_tag; repeat constructor; lia|split; exact I].
+    + reflexivity.
+  - change (IStr (fst sg) :: ITok rt_tok :: flat_map items_of (snd sg) ++ [ITok (TEnd s_rt)])
+      with ((IStr (fst sg) :: ITok rt_tok :: flat_map items_of (snd sg)) ++ [ITok (TEnd s_rt)]).
+    rewrite last_istr_app by discriminate. reflexivity.
+Qed.
+Lemma last_istr_false_app a b : last_istr a = false -> last_istr b = false -> last_istr (a ++ b) = false.
+Proof.
+  intros Ha Hb. destruct b as [|y b]; [rewrite app_nil_r; exact Ha|]. rewrite last_istr_app by discriminate. exact Hb.
+Qed.
+Lemma nf_segs segs : Forall seg_ok segs -> nf_items (flat_map seg_items segs) /\ last_istr (flat_map seg_items segs) = false.
+Proof.
+  induction 1 as [|sg segs Hsg _ [IH1 IH2]]; [split; [exact I|reflexivity]|].
+  destruct (nf_seg sg Hsg) as [N L]. cbn [flat_map]. split.
+  - apply nf_app; [exact N|exact IH1|]. rewrite L. reflexivity.
+  - apply last_istr_false_app; assumption.
+Qed.
+Lemma nf_ttree n : wf_tnode n -> nf_items (titems_of n).
+Proof.
+  destruct n as [n|segs]; cbn [wf_tnode titems_of]; [apply nf_tree|]. intros W.
+  destruct (nf_segs segs W) as [N L].
+  change (ITok ruby_tok :: flat_map seg_items segs ++ [ITok (TEnd s_ruby)])
+    with ([ITok ruby_tok] ++ flat_map seg_items segs ++ [ITok (TEnd s_ruby)]).
+  apply nf_app; [cbn; split; [apply nf_ruby_tok|split; exact I]| |reflexivity].
+  apply nf_app; [exact N| |rewrite L; reflexivity].
+  cbn [nf_items]. split; [apply nf_end_tag; repeat constructor; lia|split; exact I].
+Qed.
+Lemma titems_head n : head_istr (titems_of n) = is_ttext n.
+Proof. destruct n as [n|segs]; [apply items_head|reflexivity]. Qed.
+Lemma titems_last n : last_istr (titems_of n) = is_ttext n.
+Proof.
+  destruct n as [n|segs]; [apply items_last|]. cbn [titems_of is_ttext].
+  change (ITok ruby_tok :: flat_map seg_items segs ++ [ITok (TEnd s_ruby)])
+    with ((ITok ruby_tok :: flat_map seg_items segs) ++ [ITok (TEnd s_ruby)]).
+  rewrite last_istr_app by discriminate. reflexivity.
+Qed.
+Lemma titems_nonempty n : titems_of n <> [].
+Proof. destruct n as [n|segs]; [apply items_nonempty|discriminate]. Qed.
+Lemma nf_ttrees : forall ns, Forall wf_tnode ns -> no_tadj ns ->
+  nf_items (flat_map titems_of ns) /\
+  head_istr (flat_map titems_of ns) = match ns with n :: _ => is_ttext n | [] => false end.
+Proof.
+  induction ns as [|n ns IH]; intros Hw Hadj; [split; [exact I|reflexivity]|].
+  inversion Hw; subst. destruct Hadj as [Hxy Hadj].
+  destruct (IH H2 Hadj) as [Hnf Hhead]. cbn [flat_map]. split.
+  - apply nf_app; [apply nf_ttree; assumption|exact Hnf|]. rewrite titems_last, Hhead. destruct ns; [apply andb_false_r|exact Hxy].
+  - pose proof (titems_nonempty n) as Hne. pose proof (titems_head n) as Hh.
+    destruct (titems_of n) eqn:E; [contradiction|]. exact Hh.
+Qed.
+
+(* ---- the parser *)
+Lemma in_rt_parent s : in_rt s -> parent_is_p s = false.
+Proof.
+  intros [A T]. unfold parent_is_p. destruct (p_stack s); [contradiction|]. rewrite A. reflexivity.
+Qed.
+(* a node of an annotation, the current parent being the rt element *)
+Lemma parse_rt_node pb att n : wf_node n -> rt_ok n -> forall rest s, in_rt s ->
+  handle_tokens pb att (tokens_of n ++ rest) s =
+  handle_tokens pb att rest (apply_res (span_of pb (parent_is_p s) (p_begin s) n) s).
+Proof.
+  intros W Hrt rest s R. destruct n as [ps|t|k cs].
+  - inversion W as [? (Hne & Hg & Hv)| |]; subst. cbn [rt_ok] in Hrt. unfold one_line in Hrt.
+    unfold tokens_of. cbn [items_of map item_token app handle_tokens handle_token span_of]. unfold handle_string.
+    rewrite pieces_value_svalue by exact Hg. unfold split_on. rewrite split_no_lf by exact Hrt. cbn [app].
+    cbn [push_text_lines lines_elems]. rewrite push_line_ok by (right; exact R).
+    unfold apply_res. cbn [fst snd app add_all fold_left].
+    destruct (add_leaf_facts (ENode KSpan (with_begin (p_begin s) (base_attrs (parent_is_p s))) [EText (pieces_svalue ps)]) s) as (_ & _ & B & _).
+    rewrite <- B at 2. rewrite set_begin_same. reflexivity.
+  - inversion W as [|? Ht|]; subst.
+    unfold tokens_of. cbn [items_of map item_token app handle_tokens handle_token span_of].
+    rewrite handle_ts_print by exact Ht. reflexivity.
+  - inversion W as [| |? ? Hk Hcs Hadj]; subst.
+    apply parse_tag; [exact Hk|exact Hcs| |destruct R as [A _]; exact A|apply push_span_ok; right; exact R].
+    apply Forall_forall. intros n _ Wn. apply parse_tree. exact Wn.
+Qed.
+Lemma parse_rt_nodes pb att cs : Forall wf_node cs -> Forall rt_ok cs -> forall rest s, in_rt s ->
+  handle_tokens pb att (tokens_of_list cs ++ rest) s =
+  handle_tokens pb att rest (apply_res (spans_of pb false (p_begin s) cs) s).
+Proof.
+  intros Hw Hrt rest s R. rewrite <- (in_rt_parent s R).
+  apply (parse_list pb att in_rt (fun n => wf_node n /\ rt_ok n) in_rt_apply); [| |exact R].
+  - apply Forall_forall. intros n _ [Wn Rn]. apply parse_rt_node; assumption.
+  - clear -Hw Hrt. induction Hw; inversion Hrt; subst; constructor; [split; assumption|auto].
+Qed.
+
+Definition seg_tokens (sg : list piece * list snode) : list token := map item_token (seg_items sg).
+Lemma seg_tokens_eq sg : seg_tokens sg = TString (pieces_value (fst sg)) :: rt_tok :: tokens_of_list (snd sg) ++ [TEnd s_rt].
+Proof. unfold seg_tokens, seg_items, tokens_of_list. cbn [map item_token]. rewrite map_app. reflexivity. Qed.
+
+Lemma segs_tokens_flat segs : map item_token (flat_map seg_items segs) = flat_map seg_tokens segs.
+Proof. unfold seg_tokens. induction segs as [|x l IHl]; [reflexivity|]. cbn [flat_map]. rewrite map_app, IHl. reflexivity. Qed.
+
+(* one base and its annotation, the current parent being the ruby element *)
+Lemma parse_seg pb att sg : seg_ok sg -> forall rest r b t st bg,
+  handle_tokens pb att (seg_tokens sg ++ rest) (mkP r (FRuby b t :: st) 0 true bg) =
+  let '(es, n1) := spans_of pb false bg (snd sg) in
+  handle_tokens pb att rest
+    (mkP r (FRuby (b ++ [ENode KRb no_attrs [ENode KSpan (with_begin bg no_attrs) [EText (pieces_svalue (fst sg))]]])
+                  (t ++ [ENode KRt no_attrs es]) :: st) 0 true n1).
+Proof.
+  intros ((Hne & Hg & Hv) & Hone & Hw & Hadj & Hrt) rest r b t st bg.
+  rewrite seg_tokens_eq. cbn [app handle_tokens handle_token]. unfold handle_string.
+  rewrite pieces_value_svalue by exact Hg. unfold split_on. rewrite split_no_lf by exact Hone. cbn [app].
+  cbn [push_text_lines]. unfold push_text_line. cbn [p_above p_stack p_ruby p_root p_begin Z.eqb].
+  replace (make_span_attrs (mkP r (FRuby b t :: st) 0 true bg)) with no_attrs by reflexivity.
+  (* <rt> *)
+  set (s1 := mkP r (FRuby (b ++ [ENode KRb no_attrs [ENode KSpan (with_begin bg no_attrs) [EText (pieces_svalue (fst sg))]]]) t :: st) 0 true bg).
+  replace (handle_token pb att rt_tok s1) with (@inl pstate exn (open_node KRt no_attrs s1)) by reflexivity.
+  assert (R1 : in_rt (open_node KRt no_attrs s1)) by (split; [reflexivity|exact I]).
+  rewrite <- app_assoc. rewrite parse_rt_nodes by assumption.
+  change (p_begin (open_node KRt no_attrs s1)) with bg.
+  destruct (spans_of pb false bg (snd sg)) as [es n1].
+  cbn [app handle_tokens handle_token]. unfold handle_end.
+  pose proof (in_rt_apply (es, n1) _ R1) as [A2 _]. rewrite A2. cbn [Z.eqb Z.ltb Z.compare].
+  rewrite open_stack. rewrite pop_open. cbn [fst snd].
+  unfold apply_res, s1, add_all, add_leaf, set_begin. cbn [fold_left fst snd attach p_root p_stack p_above p_ruby p_begin].
+  reflexivity.
+Qed.
+Lemma parse_segs pb att : forall segs, Forall seg_ok segs -> forall rest r b t st bg,
+  handle_tokens pb att (flat_map seg_tokens segs ++ rest) (mkP r (FRuby b t :: st) 0 true bg) =
+  let '(rbs, rts, n2) := segs_elems pb bg segs in
+  handle_tokens pb att rest (mkP r (FRuby (b ++ rbs) (t ++ rts) :: st) 0 true n2).
+Proof.
+  induction 1 as [|sg segs Hsg _ IH]; intros rest r b t st bg.
+  - cbn [flat_map app segs_elems]. rewrite ?app_nil_r. reflexivity.
+  - cbn [flat_map segs_elems]. rewrite <- app_assoc. rewrite parse_seg by exact Hsg.
+    destruct (spans_of pb false bg (snd sg)) as [es n1]. rewrite IH.
+    destruct (segs_elems pb n1 segs) as [[rbs rts] n2]. rewrite <- !app_assoc. reflexivity.
+Qed.
+
+(* the paragraph is the current parent and no ruby is open *)
+Definition at_p (s : pstate) : Prop := p_above s = 0 /\ p_stack s = [] /\ p_ruby s = false.
+Lemma at_p_regular s : at_p s -> regular s.
+Proof. intros (A & S & _). split; [exact A|rewrite S; exact I]. Qed.
+Lemma at_p_apply r s : at_p s -> at_p (apply_res r s).
+Proof.
+  intros (A & S & Rb). unfold apply_res, at_p. cbn [p_above p_stack p_ruby set_begin].
+  destruct (add_all_facts (fst r) s) as (_ & _ & A' & R'). rewrite A', R'. split; [exact A|]. split; [|exact Rb].
+  clear -S. revert s S. induction (fst r) as [|e es IH]; intros s S; [exact S|]. cbn [add_all fold_left]. apply IH.
+  destruct (add_leaf_facts e s) as (_ & _ & _ & _ & S'). rewrite S in S'. exact S'.
+Qed.
+
+Definition ttokens_of (n : tnode) : list token := map item_token (titems_of n).
+Lemma parse_tnode pb att n : wf_tnode n -> forall rest s, at_p s ->
+  handle_tokens pb att (ttokens_of n ++ rest) s =
+  handle_tokens pb att rest (apply_res (tspan_of pb (p_begin s) n) s).
+Proof.
+  intros W rest s P. destruct n as [n|segs]; cbn [wf_tnode] in W.
+  - pose proof (parse_tree pb att n W rest s (at_p_regular s P)) as E. unfold ttokens_of. cbn [titems_of tspan_of].
+    fold (tokens_of n). rewrite E.
+    replace (parent_is_p s) with true; [reflexivity|]. destruct P as (A & S & _). unfold parent_is_p. rewrite A, S. reflexivity.
+  - destruct s as [r st ab rb bg]. destruct P as (A & S & Rb). cbn [p_above p_stack p_ruby] in A, S, Rb. subst.
+    unfold ttokens_of. cbn [titems_of map item_token]. rewrite map_app. cbn [map item_token app handle_tokens handle_token].
+    rewrite <- app_assoc. rewrite segs_tokens_flat.
+    replace (handle_token pb att ruby_tok (mkP r [] 0 false bg)) with (@inl pstate exn (mkP r [FRuby [] []] 0 true bg)) by reflexivity.
+    rewrite parse_segs by exact W. cbn [tspan_of p_begin].
+    destruct (segs_elems pb bg segs) as [[rbs rts] n2].
+    cbn [app handle_tokens handle_token]. unfold handle_end. cbn [p_above Z.eqb Z.ltb Z.compare p_stack].
+    unfold pop. cbn [p_stack p_root p_above p_ruby p_begin close_frame attach].
+    unfold apply_res, add_all, add_leaf, set_begin. cbn [fold_left fst snd attach p_root p_stack p_above p_ruby p_begin]. reflexivity.
+Qed.
+
+Lemma parse_tnodes pb att : forall ns, Forall wf_tnode ns -> forall rest s, at_p s ->
+  handle_tokens pb att (map item_token (flat_map titems_of ns) ++ rest) s =
+  handle_tokens pb att rest (apply_res (tspans_of pb (p_begin s) ns) s).
+Proof.
+  induction 1 as [|n ns Hn _ IH]; intros rest s P.
+  - cbn [flat_map map app tspans_of]. rewrite apply_res_nil. reflexivity.
+  - cbn [flat_map tspans_of]. rewrite map_app, <- app_assoc. fold (ttokens_of n). rewrite parse_tnode by assumption.
+    destruct (tspan_of pb (p_begin s) n) as [e1 n1]. destruct (apply_facts (e1, n1) s) as (_ & B').
+    rewrite IH by (apply at_p_apply; exact P). rewrite B'. cbn [snd].
+    destruct (tspans_of pb n1 ns) as [e2 n2]. rewrite apply_res_app. reflexivity.
+Qed.
+
+(* the cue tree theorem with ruby: every cue text of the grammar outside the recorded finding *)
+Theorem tree_ruby_roundtrip pb att ns : wf_tnodes ns ->
+  parse_cue_text pb att (print_cue_text (flat_map tnodes_of ns)) = inl (fst (tspans_of pb None ns)).
+Proof.
+  intros [Hw Hadj]. unfold parse_cue_text. rewrite print_ttrees by exact Hw.
+  rewrite tokenizer_items by (apply nf_ttrees; assumption).
+  rewrite <- (app_nil_r (map item_token (flat_map titems_of ns))).
+  rewrite parse_tnodes; [|exact Hw|repeat split].
+  cbn [handle_tokens]. unfold apply_res. cbn [p_begin]. rewrite add_all_root. reflexivity.
+Qed.
+
+(* ---- non-vacuity *)
+Lemma lit_ok t : t <> [] -> text_ok [PLit t].
+Proof.
+  intros H. split; [discriminate|]. split; [constructor; [exact H|constructor]|].
+  unfold pieces_svalue. cbn. rewrite app_nil_r. exact H.
+Qed.
+(* a<LF>b, <b><c.red>x</c><00:12.000>y</b>, <v Tom & J>z&lrm;</v>, <lang en></lang> *)
+Example tree_example :
+  wf_nodes [SText [PLit [97;10;98]];
+            STag TgB [STag (TgC [[114;101;100]]) [SText [PLit [120]]]; STs (mkTs None 0 12 0); SText [PLit [121]]];
+            STag (TgV [84;111;109;32;38;32;74]) [SText [PLit [122]; PRef (RefNamed [108;114;109])]]; STag (TgLang [101;110]) []].
+Proof.
+  assert (G : ref_good (RefNamed [108;114;109]))
+    by (split; [apply named_ref_ok; repeat constructor; lia|vm_compute; reflexivity]).
+  split; [|cbn; repeat split; reflexivity].
+  repeat (first [exact G | exact I | apply lit_ok; discriminate | discriminate | reflexivity
+                | (unfold pieces_svalue; cbn; discriminate) | (unfold class_ok, name_char; repeat constructor; lia)
+                | (cbn; unfold digit_ok; lia) | constructor]).
+Qed.
+(* x <ruby>base<rt>an<b>n</b></rt>b2<rt></rt></ruby> y *)
+Example tree_ruby_example :
+  wf_tnodes [TPlain (SText [PLit [120]]);
+             TRuby [([PLit [98;97;115;101]], [SText [PLit [97;110]]; STag TgB [SText [PLit [110]]]]); ([PLit [98;50]], [])];
+             TPlain (SText [PLit [121]])].
+Proof.
+  split; [|cbn; repeat split; reflexivity].
+  repeat (first [exact I | apply lit_ok; discriminate | discriminate | reflexivity
+                | (unfold one_line, pieces_svalue; cbn; reflexivity) | (cbn; repeat split; reflexivity) | constructor]).
+Qed.
+
+(* ================================================================ numeric character references, as a class
+   &#D…; and &#xH…; of ANY number n below 10^40 that html.unescape maps to itself (numeric_charref n = [n]: a scalar
+   value outside html's remapping and removal tables - an executable condition) are good references. *)
+Lemma fold_dec_shift : forall l a, fold_left (fun a c => a * 10 + (c - 48)) l a =
+  a * 10 ^ Z.of_nat (length l) + fold_left (fun a c => a * 10 + (c - 48)) l 0.
+Proof.
+  induction l as [|c l IH]; intros a; [cbn; lia|].
+  cbn [fold_left length]. rewrite IH. rewrite (IH (0 * 10 + (c - 48))).
+  rewrite Nat2Z.inj_succ, Z.pow_succ_r by lia. ring.
+Qed.
+Lemma dec_value_snoc ds d : dec_value (ds ++ [d]) = dec_value ds * 10 + (d - 48).
+Proof. unfold dec_value. rewrite fold_left_app. reflexivity. Qed.
+Lemma fold_hex_shift : forall l a, fold_left (fun a c => a * 16 + hexval c) l a =
+  a * 16 ^ Z.of_nat (length l) + fold_left (fun a c => a * 16 + hexval c) l 0.
+Proof.
+  induction l as [|c l IH]; intros a; [cbn; lia|].
+  cbn [fold_left length]. rewrite IH. rewrite (IH (0 * 16 + hexval c)).
+  rewrite Nat2Z.inj_succ, Z.pow_succ_r by lia. ring.
+Qed.
+Lemma hex_value_snoc ds d : hex_value (ds ++ [d]) = hex_value ds * 16 + hexval d.
+Proof. unfold hex_value. rewrite fold_left_app. reflexivity. Qed.
+
+Lemma print_nat_digits_spec : forall fuel n acc, (0 < fuel)%nat -> 0 <= n < 10 ^ Z.of_nat fuel ->
+  exists ds, print_nat_digits fuel n acc = ds ++ acc /\ ds <> [] /\ Forall (fun c => is_digit c = true) ds /\ dec_value ds = n.
+Proof.
+  induction fuel as [|f IH]; intros n acc Hf H; [lia|].
+  cbn [print_nat_digits]. destruct (n <? 10) eqn:E.
+  - destruct H as [H0 _]. apply Z.ltb_lt in E.
+    exists [48 + n]. split; [reflexivity|]. split; [discriminate|]. split; [|unfold dec_value; cbn [fold_left]; lia].
+    apply Forall_cons; [|apply Forall_nil]. unfold is_digit. apply andb_true_iff. split; apply Z.leb_le; lia.
+  - rewrite Nat2Z.inj_succ, Z.pow_succ_r in H by lia.
+    assert (Hf' : (0 < f)%nat) by (destruct f; [cbn in H; lia|lia]).
+    assert (Hq : 0 <= n / 10 < 10 ^ Z.of_nat f) by (split; [apply Z.div_pos; lia|apply Z.div_lt_upper_bound; lia]).
+    destruct (IH (n / 10) ((48 + n mod 10) :: acc) Hf' Hq) as (ds & E1 & Hne & Hd & Hv).
+    exists (ds ++ [48 + n mod 10]). rewrite E1, <- app_assoc. split; [reflexivity|]. split; [|split].
+    + destruct ds; discriminate.
+    + apply Forall_app. split; [exact Hd|]. constructor; [|constructor]. unfold is_digit. pose proof (Z.mod_pos_bound n 10). lia.
+    + rewrite dec_value_snoc, Hv. pose proof (Z.div_mod n 10). lia.
+Qed.
+Lemma hex_digit_ok d : 0 <= d < 16 -> is_hexdigit (hex_digit d) = true /\ hexval (hex_digit d) = d /\ hex_digit d <> 59.
+Proof.
+  intros H. unfold hex_digit, is_hexdigit, hexval, is_digit. destruct (d <? 10) eqn:E.
+  - replace ((48 <=? 48 + d) && (48 + d <=? 57)) with true by lia. cbn [orb]. repeat split; lia.
+  - replace ((48 <=? 87 + d) && (87 + d <=? 57)) with false by lia.
+    replace ((65 <=? 87 + d) && (87 + d <=? 70)) with false by lia. repeat split; lia.
+Qed.
+Lemma print_hex_digits_spec : forall fuel n acc, (0 < fuel)%nat -> 0 <= n < 16 ^ Z.of_nat fuel ->
+  exists ds, print_hex_digits fuel n acc = ds ++ acc /\ ds <> [] /\ Forall (fun c => is_hexdigit c = true /\ c <> 59) ds /\ hex_value ds = n.
+Proof.
+  induction fuel as [|f IH]; intros n acc Hf H; [lia|].
+  cbn [print_hex_digits]. destruct (n <? 16) eqn:E.
+  - destruct (hex_digit_ok n) as (A & B & C); [lia|].
+    exists [hex_digit n]. split; [reflexivity|]. split; [discriminate|]. split; [constructor; [split; assumption|constructor]|unfold hex_value; cbn [fold_left]; lia].
+  - rewrite Nat2Z.inj_succ, Z.pow_succ_r in H by lia.
+    assert (Hf' : (0 < f)%nat) by (destruct f; [cbn in H; lia|lia]).
+    assert (Hq : 0 <= n / 16 < 16 ^ Z.of_nat f) by (split; [apply Z.div_pos; lia|apply Z.div_lt_upper_bound; lia]).
+    destruct (IH (n / 16) (hex_digit (n mod 16) :: acc) Hf' Hq) as (ds & E1 & Hne & Hd & Hv).
+    destruct (hex_digit_ok (n mod 16)) as (A & B & C); [apply Z.mod_pos_bound; lia|].
+    exists (ds ++ [hex_digit (n mod 16)]). rewrite E1, <- app_assoc. split; [reflexivity|]. split; [|split].
+    + destruct ds; discriminate.
+    + apply Forall_app. split; [exact Hd|]. constructor; [split; assumption|constructor].
+    + rewrite hex_value_snoc, Hv, B. pose proof (Z.div_mod n 16). lia.
+Qed.
+
+Lemma take_drop_stop (p : Z -> bool) : forall ds c rest, Forall (fun x => p x = true) ds -> p c = false ->
+  take_while p (ds ++ c :: rest) = ds /\ drop_while p (ds ++ c :: rest) = c :: rest.
+Proof.
+  induction ds as [|d ds IH]; intros c rest H Hc; cbn [app take_while drop_while].
+  - rewrite Hc. split; reflexivity.
+  - inversion H; subst. rewrite H2. destruct (IH c rest H3 Hc) as [A B]. rewrite A, B. split; reflexivity.
+Qed.
+
+Lemma unescape_fuel_nil f : unescape_fuel f [] = [].
+Proof. destruct f; reflexivity. Qed.
+Lemma unescape_fuel_dec_step f ds : ds <> [] -> Forall (fun c => is_digit c = true) ds ->
+  unescape_fuel (S f) (38 :: 35 :: ds ++ [59]) = numeric_charref (dec_value ds) ++ unescape_fuel f [].
+Proof.
+  intros Hne Hd. cbn [unescape_fuel].
+  destruct (take_drop_stop is_digit ds 59 [] Hd eq_refl) as [A B]. rewrite A, B.
+  destruct ds as [|d ds']; [congruence|]. reflexivity.
+Qed.
+Lemma unescape_dec ds : ds <> [] -> Forall (fun c => is_digit c = true) ds ->
+  unescape ([38;35] ++ ds ++ [59]) = numeric_charref (dec_value ds).
+Proof.
+  intros Hne Hd. unfold unescape. change ([38;35] ++ ds ++ [59]) with (38 :: 35 :: ds ++ [59]).
+  rewrite unescape_fuel_dec_step by assumption. rewrite unescape_fuel_nil. apply app_nil_r.
+Qed.
+Lemma unescape_fuel_hex_step f ds : ds <> [] -> Forall (fun c => is_hexdigit c = true /\ c <> 59) ds ->
+  unescape_fuel (S f) (38 :: 35 :: 120 :: ds ++ [59]) = numeric_charref (hex_value ds) ++ unescape_fuel f [].
+Proof.
+  intros Hne Hd. cbn [unescape_fuel].
+  change (take_while is_digit (120 :: ds ++ [59])) with (@nil Z). cbn [is_nil negb].
+  assert (Hd' : Forall (fun c => is_hexdigit c = true) ds) by (eapply Forall_impl; [|exact Hd]; cbn; tauto).
+  destruct (take_drop_stop is_hexdigit ds 59 [] Hd' eq_refl) as [A B]. rewrite A, B.
+  destruct ds as [|d ds']; [congruence|]. reflexivity.
+Qed.
+Lemma unescape_hex ds : ds <> [] -> Forall (fun c => is_hexdigit c = true /\ c <> 59) ds ->
+  unescape ([38;35;120] ++ ds ++ [59]) = numeric_charref (hex_value ds).
+Proof.
+  intros Hne Hd. unfold unescape. change ([38;35;120] ++ ds ++ [59]) with (38 :: 35 :: 120 :: ds ++ [59]).
+  rewrite unescape_fuel_hex_step by assumption. rewrite unescape_fuel_nil. apply app_nil_r.
+Qed.
+
+Theorem dec_ref_good n : 0 <= n < 10 ^ 40 -> numeric_charref n = [n] -> ref_good (RefDec n).
+Proof.
+  intros Hn Hv. destruct (print_nat_digits_spec 40 n [] ltac:(lia) Hn) as (ds & E & Hne & Hd & Hval). rewrite app_nil_r in E.
   split.
-  - repeat constructor; try discriminate; try exact I; cbn; try lia; try (vm_compute; reflexivity).
-  - cbn. repeat split; reflexivity.
+  - exists (35 :: ds). cbn [print_cref]. unfold print_dec. rewrite E. split; [reflexivity|].
+    constructor; [lia|]. eapply Forall_impl; [|exact Hd]. cbn. unfold is_digit. intros; lia.
+  - cbn [print_cref cref_value]. unfold print_dec. rewrite E. rewrite unescape_dec by assumption. rewrite Hval. exact Hv.
+Qed.
+Theorem hex_ref_good n : 0 <= n < 16 ^ 40 -> numeric_charref n = [n] -> ref_good (RefHex n).
+Proof.
+  intros Hn Hv. destruct (print_hex_digits_spec 40 n [] ltac:(lia) Hn) as (ds & E & Hne & Hd & Hval). rewrite app_nil_r in E.
+  split.
+  - exists (35 :: 120 :: ds). cbn [print_cref]. rewrite E. split; [reflexivity|].
+    constructor; [lia|]. constructor; [lia|]. eapply Forall_impl; [|exact Hd]. cbn. tauto.
+  - cbn [print_cref cref_value]. rewrite E. rewrite unescape_hex by assumption. rewrite Hval. exact Hv.
+Qed.
+Example numeric_refs_example : ref_good (RefDec 233) /\ ref_good (RefHex 128512) /\ ref_good (RefDec 60).
+Proof.
+  assert (B : forall n, 0 <= n < 1000000 -> 0 <= n < 10 ^ 40 /\ 0 <= n < 16 ^ 40).
+  { intros n H. assert (1000000 < 10 ^ 40) by reflexivity. assert (1000000 < 16 ^ 40) by reflexivity. lia. }
+  split; [apply dec_ref_good; [apply B; lia|reflexivity]|].
+  split; [apply hex_ref_good; [apply B; lia|reflexivity]|apply dec_ref_good; [apply B; lia|reflexivity]].
 Qed.
